@@ -21,11 +21,10 @@ ASSUME = [
     "concurrent bulks: the model's atomic step is the writer's locked unit (docs block, then its meta block); "
     "concurrent acknowledged bulks are consecutive bulk steps in lock order (theorem C01_locked_units_sequential); "
     "crashes in the middle of a concurrent group are not generated",
-    "I/O faults: HFault = one write of the unit fails part-way, the unit is rolled back (commit ce3aaa8: both files "
-    "truncated, docs first, offsets restored), no ack; HFaultCrash = crash/power loss inside the failed unit or its "
-    "rollback, with the meta block incomplete (crash_cut_ok; a failed FSYNC after a complete meta write followed by "
-    "a crash between the two truncations is excluded - Example C01_rollback_order_hazard); the write path before "
-    "ce3aaa8 is kept as run_f0 with two refutation examples",
+    "I/O faults: HFault = one write of the unit fails part-way, the unit is rolled back (commits ce3aaa8, 5db7f73: both "
+    "files truncated, meta first, offsets restored), no ack; HFaultCrash = crash/power loss inside the failed unit or "
+    "its rollback (bytes of the meta block exist only while the docs block is whole); the write path before ce3aaa8 "
+    "is kept as run_f0, the docs-first rollback order as fault_crash_v0, each with refutation examples",
     "store = FracManager level (fracmanager.Load / Append / Searcher / Fetcher) in a child process; GrpcV1.Bulk not driven",
 ]
 RULE = ("witness family [start; bulk; crash inside next bulk at operation k torn at t; start; bulk (new or retry); start ...] "
